@@ -44,13 +44,6 @@ fn cut_save_config<S, K: CryptoKey>(_repo: &Repository<S>, _new_config: ConfigFi
     Ok(())
 }
 
-fn cut_warm_up_wait<S, I: ExactSizeIterator<Item = crate::repofile::packfile::PackId>>(_repo: &Repository<S>, _packs: I) -> RusticResult<()> {
-    CUT_REACHED.store(true, SeqCst);
-    kani::cover!(true, "UNREACHABLE: prune went past its append-only guard");
-    kani::assume(false);
-    Ok(())
-}
-
 //@ harness: c15_append_only_delete_snapshots
 //@ prop: C15
 //@ tier: quick
@@ -139,3 +132,9 @@ pub(crate) fn c15_c18_apply_config_guard() {
     }
     std::mem::forget(r); std::mem::forget(repo); std::mem::forget(store);
 }
+
+// NOTE (measured): a harness for prune_repository's append-only guard compiles only if *every* thread-reaching callee
+// behind the guard is cut.  Repository::warm_up_wait can be stubbed (inherent-method-shaped stub), but the body
+// also contains `.into_par_iter()` closures and BlobCopier::new (Packer threads) which cannot be stubbed away:
+// kani-compiler crashes (intrinsics.rs:243, catch_unwind).  The prune / repair_index / repair_snapshots / rewrite
+// guards are therefore outside the claim; delete_snapshots and apply_config are covered above.
